@@ -284,6 +284,8 @@ class ExprBuilder:
                     args.append(self.build(e["fill"][0]))
                 return x.shift(*args, **kw)
             if op == "cum_sum":
+                if "arrange" not in kw:
+                    kw["arrange"] = []          # arrange= is a required keyword of cum_sum; the empty list = the current order
                 return x.cum_sum(**kw)
             raise ValueError(op)
         if k == "fn":
